@@ -2,6 +2,7 @@ package extractor
 
 import (
 	"encoding/json"
+	"net/url"
 	"regexp"
 	"slices"
 	"strconv"
@@ -18,6 +19,13 @@ var (
 	backgroundImageRegex = regexp.MustCompile(`(?:\(['"]?)(.*?)(?:['"]?\))`)
 	urlRegex             = regexp.MustCompile(`(?m)url\((.*?)\)`)
 )
+
+// isPercentEncoded reports whether every % in s starts a valid percent-escape (as in
+// /img/a%20b.png), as opposed to a CSS percentage such as 100%.
+func isPercentEncoded(s string) bool {
+	_, err := url.PathUnescape(s)
+	return err == nil
+}
 
 func IsHTML(URL *models.URL) bool {
 	return isContentType(URL.GetResponse().Header.Get("Content-Type"), "html") || strings.Contains(URL.GetMIMEType().String(), "html")
@@ -140,7 +148,7 @@ func HTMLAssets(item *models.Item) (assets []*models.URL, err error) {
 					matchFound := matches[match][1]
 
 					// Don't extract CSS elements that aren't URLs
-					if strings.Contains(matchFound, "%") ||
+					if (strings.Contains(matchFound, "%") && !isPercentEncoded(matchFound)) ||
 						strings.HasPrefix(matchFound, "0.") ||
 						strings.HasPrefix(matchFound, "--font") ||
 						strings.HasPrefix(matchFound, "--size") ||
